@@ -344,6 +344,10 @@ class ModelLoader(object):
                                                  stmt.names, stmt.values)
             
         metaclass = metamodel.find_metaclass(stmt.kind)
+        if len(stmt.values) < len(stmt.names):
+            raise ParsingException("%s:%d:%d names but only %d values given for %s" %
+                                   (stmt.filename, stmt.lineno, len(stmt.names),
+                                    len(stmt.values), stmt.kind))
             
         schema_unames = [name.upper() for name in metaclass.attribute_names]
         inst_unames = [name.upper() for name in stmt.names]
